@@ -246,7 +246,7 @@ def readAt (st : Store) (p : List Sec) (off n : Nat) : ROut :=
 inductive WOut where
   | ok (st : Store) (n : Nat)
   | err (st : Store) (n : Nat)
-  | panic
+  | panic (st : Store)           -- the sections written before the panic stay written
   deriving Repr, DecidableEq
 
 /-- `Piece.Write(b)`, `n` = bytes written so far.  Assumes `cap(b) = len(b)` (slicing `b[:k]`
@@ -255,13 +255,13 @@ def write (st : Store) : List Sec → List Nat → Nat → WOut
   | [], _, n => .ok st n
   | s :: r, b, n =>
     if s.pad then
-      if s.len ≤ b.length then write st r (b.drop s.len) n else .panic
+      if s.len ≤ b.length then write st r (b.drop s.len) n else .panic st
     else if s.len ≤ b.length then
       match fileWrite st s.file s.off (b.take s.len) with
       | .ok st' => write st' r (b.drop s.len) (n + s.len)
       | .err => .err st n
-      | .panic => .panic
-    else .panic
+      | .panic => .panic st
+    else .panic st
 
 /-! Specification side of read/write. -/
 
